@@ -712,16 +712,30 @@ impl Generator {
                 if rng.pct(60) && len > 64 {
                     // fail-then-retry: a decode that breaks off inside the compressed data,
                     // followed by a decode of the intact file
-                    let cut = len - 1 - rng.usize_below(len / 2);
+                    let mut cut = None;
+                    let mut set = None;
+                    let total = std::fs::read(format!("{}/{}", self.root, font))
+                        .ok()
+                        .filter(|d| d.len() > 24 && &d[0..4] == b"wOF2")
+                        .map(|d| u32::from_be_bytes([d[20], d[21], d[22], d[23]]));
+                    match total {
+                        // WOFF2: shorten totalCompressedSize, the stream ends part-way
+                        Some(t) if t > 8 && rng.pct(70) => {
+                            set = Some((20usize, t - 1 - rng.below(u64::from(t) * 3 / 4) as u32));
+                        }
+                        _ => cut = Some(len - 1 - rng.usize_below(len / 2)),
+                    }
                     ops.push(Op::Decoy {
                         font: font.clone(),
                         index,
-                        cut: Some(cut),
+                        cut,
+                        set,
                     });
                     ops.push(Op::Decoy {
                         font,
                         index,
                         cut: None,
+                        set: None,
                     });
                 } else {
                     let cut = match rng.below(5) {
@@ -730,7 +744,12 @@ impl Generator {
                         3 => Some(len.saturating_sub(1 + rng.usize_below(64))),
                         _ => Some(rng.usize_below(len.max(1))),
                     };
-                    ops.push(Op::Decoy { font, index, cut });
+                    ops.push(Op::Decoy {
+                        font,
+                        index,
+                        cut,
+                        set: None,
+                    });
                 }
                 continue;
             }
